@@ -94,7 +94,7 @@ def build(rnd, tier, flags):
     r = gen.R(rnd)
     meta = progs.meta_of(flat)
     std = "f2008" if (meta["f08"] or g.o.f08) else r.pick(["f2003", "f2008"])
-    lo = layout.FreeOpts(cont=r.pick([0, 8, 15]), lit_break=r.pick([0, 30]), semis=r.pick([0, 15]), indent=True,
+    lo = layout.FreeOpts(cont=r.pick([0, 8, 15]), lit_break=r.pick([0, 30]), semis=r.pick([0, 15, 70]), indent=True,
                          kwcase=r.chance(50), blanks=r.chance(50), cont_comments=20, comments=10, trailing=10,
                          names=gen.ALL_NAMES, excl=set(flags))
     lay = layout.free_layout(flat, rnd, lo)
